@@ -31,8 +31,20 @@ def bath_eigensystem(inp):
             nonunit = float(np.abs(U.conj().T @ U - np.eye(d)).max())
             imag = float(np.abs(np.diag(D).imag).max())
             rec = float(np.abs(U @ D @ U.conj().T - O).max())
-            if nonunit > 1e-9 or imag > 1e-9 or rec > 1e-9:
-                bad.append({'spectrum': spectrum, 'trial': trial, '|U^H U - 1|': nonunit, '|Im eigenvalues|': imag, '|U D U^H - O|': rec})
+            offd = float(np.abs(D - np.diag(np.diag(D))).max())
+            if nonunit > 1e-9 or imag > 1e-9 or rec > 1e-9 or offd > 1e-9:
+                bad.append({'spectrum': spectrum, 'trial': trial, '|U^H U - 1|': nonunit, '|Im eigenvalues|': imag, '|U D U^H - O|': rec,
+                            'off-diagonal part of the "diagonalised" operator': offd})
+    # sparse non-diagonal Hermitian operators (zeros next to the main diagonal, couplings between distant levels)
+    for O in (np.array([[0, 0, 1.0], [0, 0.5, 0], [1.0, 0, 0]]), np.array([[0.2, 0, 0, 1j], [0, -0.1, 0, 0], [0, 0, 0.3, 0], [-1j, 0, 0, 0.0]]),
+              np.array([[0, 0, 0.3, 0], [0, 1.0, 0, 0.2], [0.3, 0, 0, 0], [0, 0.2, 0, -1.0]])):
+        cases += 1
+        b = oqupy.Bath(O, corr)
+        U, D = b.unitary_transform, b.coupling_operator
+        rec = float(np.abs(U @ D @ U.conj().T - O).max())
+        offd = float(np.abs(D - np.diag(np.diag(D))).max())
+        if rec > 1e-9 or offd > 1e-9 or float(np.abs(U.conj().T @ U - np.eye(len(O))).max()) > 1e-9:
+            bad.append({'operator': O.tolist(), '|U D U^H - O|': rec, 'off-diagonal part of the "diagonalised" operator': offd})
     return {'violates': bool(bad), 'cases': cases, 'detail': bad[:4], 'n_bad': len(bad)}
 
 
